@@ -843,7 +843,8 @@ struct Runner {
   }
 
   static void add(std::vector<sx::BfsCase>& out, const std::string& comp,
-                  int qNone, int tNone, int qLive, int tLive, int weight) {
+                  int qNone, int tNone, int qLive, int tLive, int wNone,
+                  int wLive) {
     for (int live = 0; live < 2; ++live) {
       sx::BfsCase c;
       c.name = comp + (live ? " from 3 added nodes" : " from 3 created nodes");
@@ -854,7 +855,7 @@ struct Runner {
       };
       c.quick_depth    = live ? qLive : qNone;
       c.thorough_depth = live ? tLive : tNone;
-      c.weight         = weight;
+      c.weight         = live ? wLive : wNone;
       out.push_back(c);
     }
   }
@@ -893,38 +894,44 @@ int main(int argc, char** argv) {
 
   std::vector<sx::BfsCase> bfs;
   std::vector<sx::EnumCase> en;
-  // depths: created-nodes (quick, thorough), added-nodes (quick, thorough).
+  // add(.., created-nodes quick/thorough depth, added-nodes quick/thorough
+  // depth, created-nodes weight, added-nodes weight).
   // The added-nodes cases grow by a factor of 7..13 per level; the flavours
   // with the smaller state spaces (one entry per edge, or sorted storage) go
-  // one level deeper in the thorough tier.
+  // one level deeper in the thorough tier.  The sorted in/out flavour stays
+  // shallower: every removeEdge on a self loop aborts there and costs a
+  // worker restart.  Weights are proportional to the measured cost (seqx
+  // splits --deadline by weight).
   const int QN = 4, TN = 7, QL = 4;
-  Runner<MDir>::add(bfs, "MorphGraph<int,int,directed>", QN, TN, QL, 6, 3);
+  Runner<MDir>::add(bfs, "MorphGraph<int,int,directed>", QN, TN, QL, 6, 4, 24);
   Runner<MInOut>::add(bfs, "MorphGraph<int,int,directed,in/out>", QN, TN, QL,
-                      5, 3);
-  Runner<MUndir>::add(bfs, "MorphGraph<int,int,undirected>", QN, TN, QL, 5, 3);
+                      5, 8, 15);
+  Runner<MUndir>::add(bfs, "MorphGraph<int,int,undirected>", QN, TN, QL, 5, 10,
+                      17);
   Runner<MDirSorted>::add(bfs, "MorphGraph<int,int,directed,sorted>", QN, TN,
-                          QL, 6, 2);
+                          QL, 6, 4, 8);
   Runner<MUndirSorted>::add(bfs, "MorphGraph<int,int,undirected,sorted>", QN,
-                            TN, QL, 6, 2);
+                            TN, QL, 6, 4, 15);
   Runner<MInOutSorted>::add(bfs, "MorphGraph<int,int,directed,in/out,sorted>",
-                            QN, TN, QL, 5, 2);
+                            QN, 6, 3, 4, 8, 8);
   Runner<MNoLock>::add(bfs, "MorphGraph<int,int,directed,no-lockable>", QN, TN,
-                       QL, 5, 2);
-  Runner<MVoidDir>::add(bfs, "MorphGraph<int,void,directed>", QN, TN, QL, 6,
-                        1);
+                       QL, 5, 2, 3);
+  Runner<MVoidDir>::add(bfs, "MorphGraph<int,void,directed>", QN, TN, QL, 6, 2,
+                        2);
   Runner<MVoidUndir>::add(bfs, "MorphGraph<int,void,undirected>", QN, TN, QL,
-                          6, 1);
+                          6, 2, 2);
   Runner<SInOut>::add(bfs, "Morph_SepInOut_Graph<int,int,directed,in/out>", QN,
-                      TN, QL, 5, 3);
+                      TN, QL, 5, 4, 8);
   Runner<SInOutSorted>::add(
       bfs, "Morph_SepInOut_Graph<int,int,directed,in/out,sorted>", QN, TN, QL,
-      5, 2);
+      5, 4, 3);
   Runner<SUndir>::add(bfs, "Morph_SepInOut_Graph<int,int,undirected>", QN, TN,
-                      QL, 5, 3);
-  Runner<HDir>::add(bfs, "MorphHyperGraph<int,int,directed>", QN, TN, 3, 5, 2);
+                      QL, 5, 6, 12);
+  Runner<HDir>::add(bfs, "MorphHyperGraph<int,int,directed>", QN, TN, 3, 5, 4,
+                    4);
   Runner<HInOut>::add(bfs, "MorphHyperGraph<int,int,directed,in/out>", QN, TN,
-                      3, 5, 3);
+                      3, 5, 6, 12);
   Runner<HUndir>::add(bfs, "MorphHyperGraph<int,int,undirected>", QN, TN, 3, 5,
-                      3);
+                      4, 8);
   return sx::sx_main(argc, argv, "C10", bfs, en);
 }
